@@ -208,7 +208,9 @@ def make_conn_class():
 
         def get_request_id(self):
             self.h._on_get_request_id(self)
-            return Connection.get_request_id(self)
+            rid = Connection.get_request_id(self)
+            self.h._after_get_request_id(rid)
+            return rid
 
         def reset_idle(self):
             h = self.h
@@ -285,6 +287,8 @@ class Harness(object):
         self.in_query = False
         self.quiescent_points = []
         self.race_exercised = False
+        self.wfr_ctx = None
+        self.wfr_results = []             # (responses returned by wait_for_responses, stream ids the messages were sent on)
         self.foreign_drops = []           # (timed-out request, stream, token of the foreign handler it removed)
         self.inflight_hook = None
         self.traffic = False              # a frame was processed since the last heartbeat round
@@ -413,6 +417,11 @@ class Harness(object):
             try:
                 if inner is not None:
                     inner(resp)
+                if h.tokens.get(tok, {}).get('kind') == 'wfr':
+                    # ResponseWaiter.got_response: `with self.connection.lock: self.connection.in_flight -= 1`
+                    h.emit('ReturnConn')
+                    h.owed_tokens.discard(tok)
+                    h.checkpoint()
                 h.nested(nested_in_cb)
             finally:
                 h.cb_stack.pop()
@@ -488,11 +497,20 @@ class Harness(object):
                     self.do(a)
 
     def _on_get_request_id(self, conn):
+        w = self.wfr_ctx
+        if w is not None and self.getid_site == 'wait_for_responses' and not w['round_open']:
+            w['round_open'] = True
+            self.emit('WaitIds %d' % (w['n'] - len(w['sent'])))
         if not conn.lock._is_owned():
             self.unlocked_getid.append(self.getid_site or 'unknown')
         mh = self.maxid_hook
         if mh is not None:
             mh['armed'] = True
+
+    def _after_get_request_id(self, rid):
+        w = self.wfr_ctx
+        if w is not None and self.getid_site == 'wait_for_responses':
+            self.event([8, rid])
 
     def _on_pools_get(self, pool):
         tc = self.to_ctx
@@ -514,7 +532,10 @@ class Harness(object):
         if tok is None:
             self.auto_tok += 1
             tok = self.auto_tok
-            self.tokens[tok] = {'kind': 'auto'}
+            self.tokens[tok] = {'kind': 'wfr' if self.wfr_ctx is not None else 'auto'}
+            if self.wfr_ctx is not None:
+                self.wfr_ctx['round_open'] = False
+                self.wfr_ctx['sent'].append((request_id, tok))
         nested_cb = self.next_nested_cb
         self.next_token = None
         wrapped = self.make_cb(tok, cb, nested_cb)
@@ -831,6 +852,56 @@ class Harness(object):
                 # the handler of the re-PREPARE has finished: a unit it did not hand back is leaked
                 self.owed_tokens.discard(tok)
             self.checkpoint()
+
+    def a_wait_for_responses(self, a):
+        """the REAL Connection.wait_for_responses(*msgs): its busy-wait sleep runs a['spin'] (other actors freeing capacity), the
+        final waiter.deliver() is answered by feeding the responses in a['answer_order'] (indices into msgs)"""
+        import threading
+        c = self.conn
+        if c.is_defunct or c.is_closed:
+            return
+        n = a['n']
+        h = self
+        w = {'n': n, 'sent': [], 'round_open': False, 'spin': list(a.get('spin') or []), 'spins': 0}
+        real_time, real_event = cconn.time, cconn.Event
+
+        class TimeProxy(object):
+            def time(self_):
+                return real_time.time()
+
+            def sleep(self_, t):
+                w['spins'] += 1
+                w['round_open'] = False
+                h.checkpoint()
+                if w['spin']:
+                    h.do(w['spin'].pop(0))
+                elif w['spins'] > 50:
+                    raise RuntimeError('wait_for_responses spins without capacity coming back')
+
+        class HookEvent(threading.Event):
+            def wait(self_, timeout=None):
+                if h.wfr_ctx is w and not self_.is_set():
+                    order = a.get('answer_order') or list(range(len(w['sent'])))
+                    for k in order:
+                        if k < len(w['sent']):
+                            h.a_respond({'a': 'respond', 'i': w['sent'][k][0], 'd': 'DOk'})
+                return threading.Event.wait(self_, 0)
+        self.wfr_ctx = w
+        self.getid_site = 'wait_for_responses'
+        cconn.time, cconn.Event = TimeProxy(), HookEvent
+        res = None
+        try:
+            msgs = [QueryMessage(query='SELECT %d' % k, consistency_level=1) for k in range(n)]
+            res = c.wait_for_responses(*msgs, timeout=10.0)
+        except Exception as e:
+            self.wfr_results.append({'error': repr(e), 'sent': [x[0] for x in w['sent']]})
+        finally:
+            cconn.time, cconn.Event = real_time, real_event
+            self.wfr_ctx = None
+            self.getid_site = None
+        if res is not None:
+            self.wfr_results.append({'streams_of_results': [getattr(r, 'stream_id', None) for r in res], 'sent': [x[0] for x in w['sent']]})
+        self.checkpoint()
 
     def a_push_event(self, a):
         """a server-pushed EVENT frame (stream -1, STATUS_CHANGE UP) through the real process_io_buffer / process_msg"""
